@@ -10,12 +10,13 @@ from concurrent.futures import ThreadPoolExecutor
 
 VERIF = os.path.dirname(os.path.dirname(os.path.abspath(__file__)))
 ALL = ["C%02d" % i for i in range(1, 18)]
+SUB = "seeded"      # or "equivalent": behaviour-preserving changes, on which no check may fire
 
 
 def run_seed(args):
     sid, slot = args
     wt = "/tmp/mx-%d" % slot
-    d = os.path.join(VERIF, "seeded", sid)
+    d = os.path.join(VERIF, SUB, sid)
     subprocess.run(["git", "-C", wt, "checkout", "-q", "--", "."], check=False)
     subprocess.run(["git", "-C", wt, "clean", "-fdq"], check=False)
     p = subprocess.run(["git", "-C", wt, "apply", os.path.join(d, "patch.diff")], capture_output=True, text=True)
@@ -48,11 +49,15 @@ def run_seed(args):
 
 def main():
     argv = sys.argv[1:]
+    global SUB
+    if argv[:1] == ["--dir"]:
+        SUB = argv[1]
+        argv = argv[2:]
     j = 4
     if argv[:1] == ["-j"]:
         j = int(argv[1])
         argv = argv[2:]
-    seeds = argv or sorted(d for d in os.listdir(os.path.join(VERIF, "seeded")) if os.path.isdir(os.path.join(VERIF, "seeded", d)))
+    seeds = argv or sorted(d for d in os.listdir(os.path.join(VERIF, SUB)) if os.path.isdir(os.path.join(VERIF, SUB, d)))
     for s in range(j):
         wt = "/tmp/mx-%d" % s
         if not os.path.isdir(wt):
